@@ -39,6 +39,11 @@ Structs == <<
      P("vec", With(SArr(SInt), "default", JArr(<<JInt(1), JInt(2)>>)), FALSE, <<JArr(<< >>)>>, ""),
      P("col", With(SRef("Col"), "default", JS(<<"g">>)), FALSE, <<JS(<<"r">>)>>, ""),
      P("u", With([type |-> "integer", format |-> "uint8"], "default", JInt(7)), FALSE, <<JInt(0)>>, "300u64") >>],
+  (* a struct on a containment cycle: the cycle breaker boxes `next` *)
+  [id |-> "recursive", extra |-> << >>, props |-> <<
+     P("v", SInt, TRUE, <<JInt(1)>>, ""),
+     P("next", SRef("T"), FALSE, <<JObj1("v", JInt(2))>>, ""),
+     P("kids", SArr(SRef("T")), FALSE, <<JArr(<<JObj1("v", JInt(3))>>)>>, "") >>],
   [id |-> "all-default", extra |-> << >>, props |-> <<
      P("m", SMap(SInt), FALSE, <<JObj1("k", JInt(1))>>, ""),
      P("f", With(SBool, "default", JBool(TRUE)), FALSE, <<JBool(FALSE)>>, "") >>] >>
